@@ -26,6 +26,9 @@ func init() {
 				p.MaxOps = 120
 			}
 			pl := v1x.MakePlan(c.Rng, p)
+			if c.Index%6 == 3 {
+				pl.Cfg.Backend = "prefix" // (PrefixDB over MemDB, prefix slice with spare capacity)
+			}
 			c.Res.Digest = fw.DigestOf(pl.Cfg, pl.Summary(1000))
 			if c.Index < 2 {
 				c.Res.Sample = pl.Summary(60)
